@@ -169,6 +169,19 @@ func vfC01core(c *hx.Ctx) {
 		cf.Writes[0] = w
 		grid = append(grid, vfNamedCfg{fmt.Sprintf("frg-boundary/update/stream=false/wnd=300/mtu=25/writes=%v", w), cf})
 	}
+	// the application's bytes look like protocol segments of the same conversation, and the sender overshoots the reader's
+	// window (segments beyond the window are rejected — their payload must not be looked at): asymmetric windows, every fate
+	for _, mode := range []string{"session", "update"} {
+		for _, w := range []int{1, 2, 4} {
+			for _, stream := range []bool{true, false} {
+				cf := vfSimCfg{Mode: mode, Stream: stream, SndWnd: [2]int{32, 32}, RcvWnd: [2]int{32, w}, Mtu: 24 + 48, NoDelay: [4]int{1, 20, 2, 1},
+					Delay: 10, HorizonMs: 600000, PauseAfter: 1, PauseMs: 300, K: K - 2, Fates: vfAllFates, SegmentLikePayload: true}
+				cf.Writes[0] = []int{48, 48, 48, 48, 48, 48, 48, 48, 48, 48}
+				cf.Writes[1] = []int{48}
+				grid = append(grid, vfNamedCfg{fmt.Sprintf("segment-like-payload/%s/stream=%v/rcv_wnd=%d", mode, stream, w), cf})
+			}
+		}
+	}
 	vfRunGrid(c, grid, "C01:")
 }
 
